@@ -54,6 +54,9 @@ def specs(draw):
         raw = [0.0] * n_amp
         for i in draw(st.lists(st.integers(0, n_amp - 1), min_size=1, max_size=3, unique=True)):
             raw[i] = draw(st.sampled_from([-1.0, 1.0])) * draw(st.floats(0.2, 1, **finite))
+    # (sub-normal raw values would make the normalisation below round to amplitudes of exactly 1, a degenerate shape whose radius
+    # function touches zero)
+    raw = [x if abs(x) >= 1e-6 else 0.0 for x in raw]
     if not any(raw):
         raw[draw(st.integers(0, n_amp - 1))] = 1.0
     if cls == "PerturbedDroplet2D":
